@@ -24,6 +24,11 @@ type C13Case struct {
 	Kinds  []string   `json:"kinds,omitempty"`
 	Empty  bool       `json:"override_empty,omitempty"` // the override block sets the leaf to its empty value
 	First  string     `json:"first_get,omitempty"`      // format asked for first (history of length 2)
+	Second string     `json:"second_get,omitempty"`     // format asked for second (history of length 3)
+	Key2   string     `json:"override_key2,omitempty"`  // a second override block setting the same leaves to other values
+	All    bool       `json:"all_blocks,omitempty"`     // every other format has an override block with other values
+	// BaseUnset: the base settings leave the leaves unset, only the override block sets them
+	BaseUnset bool `json:"base_unset,omitempty"`
 }
 
 func overridableShape() []cfgLeaf {
@@ -59,6 +64,7 @@ func overridableShape() []cfgLeaf {
 
 var c13T1 = time.Date(2003, 3, 3, 3, 3, 3, 0, time.UTC)
 var c13T2 = time.Date(2004, 4, 4, 4, 4, 4, 0, time.UTC)
+var c13T3 = time.Date(2005, 5, 5, 5, 5, 5, 0, time.UTC)
 
 // c13Value gives the base / override / merged values for a leaf kind.
 func c13Value(l cfgLeaf, which string) any {
@@ -67,42 +73,54 @@ func c13Value(l cfgLeaf, which string) any {
 	switch l.Kind {
 	case "string", "strptr":
 		if last == "key_id" {
-			return map[string]string{"base": "aaaa1111", "over": "bbbb2222", "empty": ""}[which]
+			return map[string]string{"base": "aaaa1111", "over": "bbbb2222", "over2": "cccc3333", "empty": ""}[which]
 		}
-		return map[string]string{"base": "base-" + name, "over": "over-" + name, "empty": ""}[which]
+		return map[string]string{"base": "base-" + name, "over": "over-" + name, "over2": "second-" + name, "empty": ""}[which]
 	case "strlist":
-		return map[string][]any{"base": {"b1-" + name, "b2-" + name}, "over": {"o1-" + name}, "empty": {}}[which]
+		return map[string][]any{"base": {"b1-" + name, "b2-" + name}, "over": {"o1-" + name}, "over2": {"p1-" + name, "p2-" + name, "p3-" + name}, "empty": {}}[which]
 	case "strmap":
-		return map[string]map[string]any{"base": {"A": "base-a", "C": "base-c"}, "over": {"A": "over-a", "B": "over-b"}, "empty": {}}[which]
+		return map[string]map[string]any{"base": {"A": "base-a", "C": "base-c"}, "over": {"A": "over-a", "B": "over-b"}, "over2": {"A": "second-a", "D": "second-d"}, "empty": {}}[which]
 	case "bool":
-		return map[string]bool{"base": false, "over": true, "empty": false}[which]
+		return map[string]bool{"base": false, "over": true, "over2": true, "empty": false}[which]
 	case "int":
-		return map[string]int{"base": 0o022, "over": 0o077, "empty": 0}[which]
+		return map[string]int{"base": 0o022, "over": 0o077, "over2": 0o027, "empty": 0}[which]
 	case "time":
-		return map[string]time.Time{"base": c13T1, "over": c13T2, "empty": {}}[which]
+		return map[string]time.Time{"base": c13T1, "over": c13T2, "over2": c13T3, "empty": {}}[which]
 	case "blocklist":
 		alt := func(n string, prio int) map[string]any {
 			return map[string]any{"priority": prio, "target": "/usr/bin/" + n, "link_name": "/usr/bin/link-" + n}
 		}
-		return map[string][]any{"base": {alt("base1", 1), alt("base2", 2)}, "over": {alt("over", 9)}, "empty": {}}[which]
+		return map[string][]any{"base": {alt("base1", 1), alt("base2", 2)}, "over": {alt("over", 9)}, "over2": {alt("second1", 5), alt("second2", 6), alt("second3", 7)}, "empty": {}}[which]
 	case "contents":
 		entry := func(n string) []any {
 			return []any{map[string]any{"src": "src-" + n, "dst": "/dst-" + n, "file_info": map[string]any{"owner": n, "mode": 0o640}}, map[string]any{"dst": "/dir-" + n, "type": "dir"}}
 		}
-		return map[string][]any{"base": entry("base"), "over": entry("over")[:1], "empty": {}}[which]
+		return map[string][]any{"base": entry("base"), "over": entry("over")[:1], "over2": append(entry("second"), entry("third")...), "empty": {}}[which]
 	}
 	return nil
 }
 
 // mergedValue is what the effective setting must be when the override applies.
-func mergedValue(l cfgLeaf, empty bool) any {
-	if empty {
+// which names the override block's value ("over", "over2", "empty"); baseUnset says the base settings leave the leaf unset
+// (nil result = the leaf stays unset).
+func mergedValue(l cfgLeaf, which string, baseUnset bool) any {
+	if which == "empty" {
+		if baseUnset {
+			return nil
+		}
 		return c13Value(l, "base")
 	}
-	if l.Kind == "strmap" {
-		return map[string]any{"A": "over-a", "B": "over-b", "C": "base-c"}
+	if l.Kind == "strmap" && !baseUnset {
+		m := map[string]any{}
+		for k, v := range c13Value(l, "base").(map[string]any) {
+			m[k] = v
+		}
+		for k, v := range c13Value(l, which).(map[string]any) {
+			m[k] = v
+		}
+		return m
 	}
-	return c13Value(l, "over")
+	return c13Value(l, which)
 }
 
 func init() {
@@ -110,7 +128,8 @@ func init() {
 		ID:    "C13",
 		Level: "model_checking",
 		Rule: "leaf: every leaf field of Overridables (enumerated by reflection from the tree under test, incl. nested rpm/deb/apk/archlinux/ipk blocks, contents[] fields) x every registered format as override key x {non-empty, empty override value}; Get(key) is asked first, then Get(f) for all five formats; " +
-			"each result must deep-equal the effective settings of a freshly parsed configuration in which exactly that field was replaced (differential oracle, no hand-written expectations); thorough: all pairs of leaves inside one block; " +
+			"each result must deep-equal the effective settings of a freshly parsed configuration in which exactly that field was replaced (differential oracle, no hand-written expectations); the same with the base settings leaving the leaf unset, and with an override block (other values) for every other format at once; " +
+			"thorough: ALL pairs of leaves, two override blocks for the same leaf for every ordered pair of formats (other block's format asked first), base-unset variants, every history of two earlier Gets (25 per leaf and key); " +
 			"order: every leaf x every other format asked first; validate: override keys in {registered, unregistered, wrong case} through Validate; contents: per-packager entries in base and override lists, all five packages built and inspected; non-trivial = override block present; distinct = distinct (leaf, key, asked format, outcome)",
 		Assumptions: []string{"merge semantics per the statement: non-empty override values replace, lists wholesale, nested blocks and maps key by key, empty values ignored"},
 		Setup:       setupTree,
@@ -161,15 +180,55 @@ func init() {
 					return
 				}
 			}
+			// the base settings leave the leaf unset; two override blocks for the same leaf; a block for every format
+			for _, l := range leaves {
+				for _, k := range Formats {
+					if !yield(C13Case{Part: "leaf", Key: k, Leaves: [][]string{l.Path}, Kinds: []string{l.Kind}, First: k, BaseUnset: true}) {
+						return
+					}
+					if !yield(C13Case{Part: "blocks", Key: k, Leaves: [][]string{l.Path}, Kinds: []string{l.Kind}, First: k, All: true}) {
+						return
+					}
+					if env.Thorough() {
+						for _, k2 := range Formats {
+							if k2 == k {
+								continue
+							}
+							for _, bu := range []bool{false, true} {
+								// the other block's format asked first, then the own format
+								if !yield(C13Case{Part: "blocks", Key: k, Key2: k2, Leaves: [][]string{l.Path}, Kinds: []string{l.Kind}, First: k2, Second: k, BaseUnset: bu}) {
+									return
+								}
+							}
+						}
+						if !yield(C13Case{Part: "blocks", Key: k, Leaves: [][]string{l.Path}, Kinds: []string{l.Kind}, First: k, All: true, BaseUnset: true}) {
+							return
+						}
+						if !yield(C13Case{Part: "leaf", Key: k, Leaves: [][]string{l.Path}, Kinds: []string{l.Kind}, First: k, BaseUnset: true, Empty: true}) {
+							return
+						}
+						// every history of two earlier Gets
+						for _, first := range Formats {
+							for _, second := range Formats {
+								if !yield(C13Case{Part: "order", Key: k, Leaves: [][]string{l.Path}, Kinds: []string{l.Kind}, First: first, Second: second}) {
+									return
+								}
+							}
+						}
+					}
+				}
+			}
 			if env.Thorough() {
 				for i, a := range leaves {
 					for _, b := range leaves[i+1:] {
-						if a.Path[0] != b.Path[0] {
-							continue
-						}
 						for _, k := range Formats {
 							if !yield(C13Case{Part: "pair", Key: k, Leaves: [][]string{a.Path, b.Path}, Kinds: []string{a.Kind, b.Kind}, First: k}) {
 								return
+							}
+							if a.Path[0] == b.Path[0] {
+								if !yield(C13Case{Part: "pair", Key: k, Leaves: [][]string{a.Path, b.Path}, Kinds: []string{a.Kind, b.Kind}, First: k, BaseUnset: true}) {
+									return
+								}
 							}
 						}
 					}
@@ -276,23 +335,41 @@ func checkC13(env *engine.Env, ci any) engine.Outcome {
 	}
 	base := map[string]any{"name": "pkg", "arch": "amd64", "version": "1.2.3", "maintainer": "M <m@example.com>", "mtime": PkgMTime}
 	switch c.Part {
-	case "leaf", "pair", "order":
+	case "leaf", "pair", "order", "blocks":
 		var leaves []cfgLeaf
 		for i, p := range c.Leaves {
 			leaves = append(leaves, cfgLeaf{Path: p, Kind: c.Kinds[i]})
 		}
 		doc := deepCopyMap(base)
-		over := map[string]any{}
-		for _, l := range leaves {
-			setDeep(doc, l.Path, c13Value(l, "base"))
-			which := "over"
-			if c.Empty {
-				which = "empty"
+		blocks := map[string]string{c.Key: "over"} // format -> which value its override block sets
+		if c.Empty {
+			blocks[c.Key] = "empty"
+		}
+		if c.Key2 != "" {
+			blocks[c.Key2] = "over2"
+		}
+		if c.All {
+			for _, f := range Formats {
+				if f != c.Key {
+					blocks[f] = "over2"
+				}
 			}
-			setDeep(over, l.Path, c13Value(l, which))
+		}
+		if !c.BaseUnset {
+			for _, l := range leaves {
+				setDeep(doc, l.Path, c13Value(l, "base"))
+			}
+		}
+		overrides := map[string]any{}
+		for f, which := range blocks {
+			over := map[string]any{}
+			for _, l := range leaves {
+				setDeep(over, l.Path, c13Value(l, which))
+			}
+			overrides[f] = over
 		}
 		withOver := deepCopyMap(doc)
-		withOver["overrides"] = map[string]any{c.Key: over}
+		withOver["overrides"] = overrides
 		text := fixture.Doc(withOver).YAML()
 		cfg, err := parseYAML(text, nil)
 		if err != nil {
@@ -302,9 +379,11 @@ func checkC13(env *engine.Env, ci any) engine.Outcome {
 		// reference: the same settings written out by hand, no override block
 		expect := func(f string) (string, error) {
 			d := deepCopyMap(doc)
-			if f == c.Key {
+			if which, ok := blocks[f]; ok {
 				for _, l := range leaves {
-					setDeep(d, l.Path, mergedValue(l, c.Empty))
+					if v := mergedValue(l, which, c.BaseUnset); v != nil {
+						setDeep(d, l.Path, v)
+					}
 				}
 			}
 			rc, err := parseYAML(fixture.Doc(d).YAML(), nil)
@@ -317,7 +396,11 @@ func checkC13(env *engine.Env, ci any) engine.Outcome {
 			}
 			return normInfo(info), nil
 		}
-		order := append([]string{c.First}, Formats...)
+		order := []string{c.First}
+		if c.Second != "" {
+			order = append(order, c.Second)
+		}
+		order = append(order, Formats...)
 		var keyParts []string
 		for i, f := range order {
 			out.Transitions++
@@ -338,6 +421,12 @@ func checkC13(env *engine.Env, ci any) engine.Outcome {
 					role = "own-format"
 				}
 				stage := "first-get"
+				if _, ok := blocks[f]; ok && f != c.Key {
+					role = "second-block-format"
+				}
+				if c.BaseUnset {
+					role += ":base-unset"
+				}
 				if i > 0 {
 					stage = "after-get-" + c.First
 					if c.First == c.Key {
@@ -346,12 +435,12 @@ func checkC13(env *engine.Env, ci any) engine.Outcome {
 						stage = "after-get-of-other-format"
 					}
 				}
-				viol("merge:"+role+":"+stage+":"+pathKey(c.Leaves[0]), "override block for %s sets %v (empty=%v); Get(%s) asked as #%d after %v differs from the settings written out by hand:\n%s\nconfig:\n%s",
-					c.Key, c.Leaves, c.Empty, f, i+1, order[:i], diffLines(got, want), text)
+				viol("merge:"+role+":"+stage+":"+pathKey(c.Leaves[0]), "override blocks %v set %v (base unset=%v); Get(%s) asked as #%d after %v differs from the settings written out by hand:\n%s\nconfig:\n%s",
+					blocks, c.Leaves, c.BaseUnset, f, i+1, order[:i], diffLines(got, want), text)
 			}
 			keyParts = append(keyParts, f+"="+fmt.Sprint(hashString(got)))
 		}
-		out.Key = fmt.Sprintf("%s:%v:%v:%s:%s", c.Key, c.Leaves, c.Empty, c.First, strings.Join(keyParts, ","))
+		out.Key = fmt.Sprintf("%s:%s:%v:%v:%v:%v:%s:%s:%s", c.Key, c.Key2, c.All, c.BaseUnset, c.Leaves, c.Empty, c.First, c.Second, strings.Join(keyParts, ","))
 	case "validate":
 		doc := deepCopyMap(base)
 		doc["overrides"] = map[string]any{c.Key: map[string]any{"depends": []any{"x"}}}
